@@ -13,7 +13,7 @@ RULE = (
 )
 BOUNDS = {
     "quick": "63 policies x 11 overrides x 8 error kinds x (no fault, 4 single positions, 6 pairs) via Config object; all 40 pairs of override tokens x 7 policies over {collect,fail,stop} x 8 kinds x 4 positions; the 63 policies x "
-    "5 kinds x 4 single positions again via config.ini",
+    "5 kinds x 4 single positions again via config.ini; 63 policies x 8 kinds x {no override, match, no-match} assigned to path.config after construction under another config.ini",
     "thorough": "as quick plus all 2-flag override combinations over different flags x 63 policies, all 3-flag combinations x 7 policies, 5-record files via config.ini and 7-record files (1,2 faults) for every policy",
 }
 ASSUMPTIONS = [
@@ -69,6 +69,12 @@ def cases(tier, seed):
             for bad in _positions(n, 1 if tier == "quick" else 2):
                 if bad:
                     yield {"policy": pol, "override": [], "kind": kind, "bad": bad, "n": n, "via": "ini"}
+    # third route: the CsvPath is constructed while config.ini names a DIFFERENT policy (raise, collect, print) and the policy under test
+    # is assigned to path.config afterwards
+    for pol in _policies():
+        for kind in KINDS:
+            for ov in ([], ["match"], ["no-match"]):
+                yield {"policy": pol, "override": ov, "kind": kind, "bad": [1], "n": n, "via": "post"}
     if tier == "quick":
         # every pair of override tokens of different flags, under the 7 policies over {collect, fail, stop}
         singles = [o[0] for o in OVERRIDES1[1:]]
@@ -130,7 +136,11 @@ def run_case(case):
     path = sandbox.write_csv(rows)
     comment = f"~ validation-mode: {', '.join(ov)} ~ " if ov else ""
     text = f'{comment}${path}[*][ push("ln", line_number()) {comment and ""}{comp} ]'
-    if case["via"] == "ini":
+    if case["via"] == "post":
+        sandbox.write_config(csvpath_policy=["raise", "collect", "print"])
+        o = run.run_csvpath(text, policy=None, post_policy=pol)
+        sandbox.write_config()
+    elif case["via"] == "ini":
         sandbox.write_config(csvpath_policy=pol)
         o = run.run_csvpath(text, policy=None)
         sandbox.write_config()
